@@ -70,5 +70,17 @@ package isaacdatabase
 //@ func (*LeveldbPermanent).loadLastSuffrageProof
 //@   prop C20
 //@   requires db != nil && db.basePermanent != nil && db.baseLeveldb != nil && db.proof != nil && (db.baseLeveldb.pst != nil ==> db.baseLeveldb.pst.Storage != nil && len(db.baseLeveldb.pst.prefix) < 1099511627776)
+//@   callsite Iter requires a2 == false
+//@   hof Iter#0 loop invariant iter <= 1
 //@   callsite SetValue requires exists([]byte(x), unbox(a0[1], []byte) == snd(ReadOneHeaderFrame(x)) && unbox(a0[2], []byte) == third(ReadOneHeaderFrame(x)))
 //@   hof Iter#0 loop invariant proof != nil ==> exists([]byte(x), meta == snd(ReadOneHeaderFrame(x)) && body == third(ReadOneHeaderFrame(x)))
+
+// the last block map: the newest record (descending iteration, stopped after
+// its first record); object, encoder hint, header and body come from that one record
+//@ func (*baseLeveldb).loadLastBlockMap
+//@   prop C20
+//@   requires db != nil && (db.pst != nil ==> db.pst.Storage != nil && len(db.pst.prefix) < 1099511627776)
+//@   callsite Iter requires a2 == false
+//@   hof Iter#0 loop invariant iter <= 1
+//@   hof Iter#0 loop invariant m != nil ==> exists([]byte(x), enchint == fst(ReadOneHeaderFrame(x)) && meta == snd(ReadOneHeaderFrame(x)) && body == third(ReadOneHeaderFrame(x)))
+//@   ensures [one-record] r4 == nil && r0 != nil ==> exists([]byte(x), r1 == fst(ReadOneHeaderFrame(x)) && r2 == snd(ReadOneHeaderFrame(x)) && r3 == third(ReadOneHeaderFrame(x)))
